@@ -315,13 +315,39 @@ def p_includes_negzero(case, rec, exp):
         and obs[2:5] == [True, True, True] and obs[6:] == [True, True]
 
 
+def p_parseint_negzero(case, rec, exp):
+    """parseInt('-0'), parseInt('-000 px', r): the parsed integer is 0 with a minus sign; goja returns valueInt(0)"""
+    if case.get("kind") != "pint":
+        return False
+    us = list(case.get("str", []))
+    while us and us[0] in WS:
+        us.pop(0)
+    if not us or us[0] != 45:
+        return False
+    us = us[1:]
+    radix = case.get("radix")
+    r32 = 0 if radix is None else ((int(radix) + 2 ** 31) % 2 ** 32) - 2 ** 31
+    if r32 != 0 and not 2 <= r32 <= 36:
+        return False
+    base = 10 if r32 == 0 else r32
+    if r32 in (0, 16) and len(us) >= 2 and us[0] == 48 and us[1] in (120, 88):
+        us, base = us[2:], 16
+    n = 0
+    for u in us:
+        if u != 48:
+            c = chr(u).lower() if u < 128 else "~"
+            d = "0123456789abcdefghijklmnopqrstuvwxyz".find(c)
+            if 0 < d < base:
+                return False        # a non-zero digit: the value is not zero
+            break
+        n += 1
+    return n > 0 and _obs(rec).get("r") == "int:0"
+
+
 PREDICATES = {
+    "C05.parseint_minus_zero_is_plus_zero": p_parseint_negzero,
     "C05.includes_negative_zero_element_missed": p_includes_negzero,
     "C05.minus_zero_with_extra_zeros_is_plus_zero": p_neg_zeros,
-    "C05.incdec_float_operand_not_canonicalised": p_incdec,
-    "C05.neg_of_negative_zero_is_float_poszero": p_negzero,
-    "C05.int_result_2p53_plus_1_stored_as_float": p_two53,
-    "C05.int_conversion_of_abs_ge_2p63": p_conv63,
     "C05.radix_literal_ge_2p63_is_nan": p_radix_long,
     "C05.radix_literal_sign_after_prefix_accepted": p_radix_sign,
     "C05.nel_u0085_trimmed_as_white_space": p_nel,
@@ -330,52 +356,17 @@ PREDICATES = {
 }
 
 
-def stage(ctx):
-    """correspondence with a pre-classification step: disagreements whose (case, observation) satisfies the
-    predicate of an open finding are reported once per finding; every other disagreement goes through
-    the generic shrink/replay/VIOLATION path (so open findings cannot crowd out a new disagreement)."""
-    generic = vcheck.handle_mismatches
-
-    def pre(ctx, binp, recs, bad, source):
-        known = [k for k in vcheck.load_known()["open"] if k["property"] == ctx.pid]
-        rest, counts = [], ctx.cov.setdefault("known_finding_hits", {})
-        for i in bad:
-            hit = None
-            for k in known:
-                fn = PREDICATES.get(k["predicate"])
-                if fn and fn(recs[i]["case"], recs[i], ""):
-                    hit = k
-                    break
-            if hit is None:
-                rest.append(i)
-                continue
-            if hit["id"] not in counts:
-                line = "KNOWN-FINDING: property=%s %s [%s]" % (ctx.pid, hit["what"], hit["id"])
-                print(line, flush=True)
-                ctx.known_lines.append(line)
-            counts[hit["id"]] = counts.get(hit["id"], 0) + 1
-        ctx.cov["unclassified_mismatches"] = ctx.cov.get("unclassified_mismatches", 0) + len(rest)
-        return generic(ctx, binp, recs, rest, source) if rest else 0
-
-    vcheck.handle_mismatches = pre
-    try:
-        vcheck.correspondence(ctx)
-    finally:
-        vcheck.handle_mismatches = generic
-
-
 CFG = {
     "id": "C05",
     "harness": "c05",
     "prop_file": "Properties/C05.v",
     "run_modules": ["Verif.C05.Run"],
     "coq_dirs": ["C05"],
-    "n": {"quick": 4000, "thorough": 300000},
+    "n": {"quick": 5000, "thorough": 300000},
     "shard": 250,
     "max_report": 8,
     "shrink": False,          # cases are single operator applications: already minimal
     "level": "proof",
-    "stages": [stage],
     "rule": ("one case = one operator/builtin/conversion application (26 unary, 14 binary forms, up to 6 syntactic variants "
              "each: expression, compound assignment, member update, typed-array/DataView store) on canonical operands drawn from "
              "boundary classes (+-0, halves, int8..uint32 edges, 2^52+-0.5, 2^53-2..2^53+4, 2^63+-2^11, 2^64.., 2^84, subnormals, "
@@ -384,7 +375,10 @@ CFG = {
              "result must be the canonical representation of the double; or a pair of values from two routes (incl. ++/--/neg) "
              "with 8 observables (Object.is both orders, === both orders, Map.get, includes, Set.has, property key); or "
              "Number(s)/+s/s*1/s-0/-(-s)/Math.abs(s) on strings with Unicode white space, 0x/0o/0b literals of 1..80 digits, "
-             "Infinity spellings, short decimals.  non-trivial = some operand is outside [-300,300] integers or the case is a "
+             "Infinity spellings, short decimals, LONG zero-padded texts; or x**y / Math.pow / **= on integer operands with bases at "
+             "+-floor(2^(63/e))+-{0,1,2} and +-floor(2^(53/e))+-{0,1}, e in 0..70 (exact integer power, one rounding); or "
+             "parseInt(s, radix) / parseFloat(s) on texts of 1..200 characters (zero padding, non-digit tails, every radix, 0x "
+             "prefixes) where value AND representation are compared.  non-trivial = some operand is outside [-300,300] integers or the case is a "
              "route/pair/string case; distinct = by hash of the case"),
     "theorem_names": [],   # filled below
     "allowed_axioms": [],
